@@ -173,7 +173,10 @@ func declaredUnpacked(field *desc.FieldDescriptor) bool {
 }
 
 func parseMessage(ctx context.Context, msgDesc *desc.MessageDescriptor, cache compilingCache, recursionDepth int, opts Options, parseTarget ParseTarget) (*TypeDescriptor, error) {
-	if tycache, ok := cache[msgDesc.GetName()]; ok && tycache.parseTarget == parseTarget {
+	// the memo must be keyed by the fully-qualified name: different message types may share a simple name
+	// (nested declarations, other packages, synthetic map entry messages such as XEntry)
+	cacheKey := msgDesc.GetFullyQualifiedName()
+	if tycache, ok := cache[cacheKey]; ok && tycache.parseTarget == parseTarget {
 		return tycache.desc, nil
 	}
 
@@ -192,7 +195,7 @@ func parseMessage(ctx context.Context, msgDesc *desc.MessageDescriptor, cache co
 		msg:  md,
 	}
 
-	cache[ty.name] = &compilingInstance{
+	cache[cacheKey] = &compilingInstance{
 		desc:        ty,
 		opts:        opts,
 		parseTarget: parseTarget,
